@@ -503,6 +503,20 @@ def c11_builder(repo, report, tier):
         report.ob("C11.R4", f"{mode}:only quality-based filters depend on the input format", not fmt_dep, facts={"problems": fmt_dep[:3]},
                   expected="--max-ee / --max-aer may be skipped for FASTA input; every other filter is built for FASTA and FASTQ alike", loc="src/cutadapt/cli.py",
                   why=(f"{fmt_dep[0]['step']} is built only for some input formats: the same reads are filtered differently as FASTA and as FASTQ" if fmt_dep else ""))
+        # a threshold that is given builds its filter - whatever other thresholds are given with it
+        for opt, pred in (("max_n", "TooManyN"), ("max_expected_errors", "TooManyExpectedErrors"), ("max_average_error_rate", "TooHighAverageErrorRate")):
+            cand = [b for b in m.blocks if any(f"{pred}(" in sl.key for val, slots, ex, row in b.rows for sl in slots)]
+            lacking = []
+            for b in cand:
+                for val, slots, ex, row in b.rows:
+                    given = val.get(f"isnone:args.{opt}")
+                    noq = any("has_qualities" in k and v is False for k, v in val.items())
+                    if given is not True and not noq and (ex is None or ex == "fall" or (isinstance(ex, tuple) and ex[0] == "fall")) and not any(f"{pred}(" in sl.key for sl in slots):
+                        lacking.append({k: v for k, v in val.items() if k.startswith("isnone:args.") or "has_qualities" in k})
+            okp = bool(cand) and not lacking
+            report.ob("C11.R4", f"{mode}: --{opt.replace('_', '-')} builds its filter whenever it is given", okp, facts={"blocks": len(cand), "paths_without_the_filter": lacking[:2]}, loc="src/cutadapt/cli.py",
+                      expected=f"a {pred} step on every builder path on which args.{opt} is not None (and, for the quality-based filters, the input has qualities)",
+                      why=("" if okp else (f"on the path {lacking[0]} no {pred} filter is built although --{opt.replace('_', '-')} may be given: the threshold is silently ignored when it is combined with the other option" if lacking else f"no {pred} filter is built on any path")))
         report.floor("C11.R1", f"step slot kinds ({mode})", len({(e["stage"], e["inner"]) for e in entries}), 12)
         # order
         conflicts = {}
